@@ -7,15 +7,15 @@ fresh queue `q`, tables `tb` before, current value `v0` of the watched variable,
 timed history `hist` (state changes, events, cancellation of the waiter).  `Spec.first` = the first of {check-now,
 first decisive occurrence, deadline anchored at the call}.  Only property statements live here.
 
-`fl : Flags` chooses between the code before and after the four `fix:` commits of /repo:
+`fl : Flags` chooses between the code before and after the five `fix:` commits of /repo:
 `Flags.current` (d8d17a4 stop-on-cancel, 74d9745 timeout=0, 28f0376 anchored `now`, 3b0ef9c `none` only for a lone
-expired time trigger) is what the check ties to the working tree; `Flags.preFix` is the tree before them.  The `_flags` theorems are proved for EVERY flag value with
+expired time trigger, a3cf272 legacy unsubscribe in a `finally`) is what the check ties to the working tree; `Flags.preFix` is the tree before them.  The `_flags` theorems are proved for EVERY flag value with
 the fragment depending on the flag; the unsuffixed ones are their instances at `Flags.current`; the `_regress_`
 theorems are kernel-checked witnesses that the pre-fix shapes violate what now holds (they would fail to build if
 somebody re-introduced the old shape as current and kept the full theorems).
 
-Still open (the code deviates): C15-F1 (legacy cancellation leak), C15-F4 (legacy parse-error leak) – `_partial` +
-`_cex` below.  The first-of statement is now FULL for both subsystems.
+No finding is open any more: the first-of statement and the clean-up statement (every exit path, cancellation at
+every instant included) are FULL for both subsystems; the six former deviations survive as `_regress_` witnesses.
 -/
 namespace PsModel.C15
 open Spec
@@ -139,14 +139,28 @@ theorem C15_after_new (fl : Flags) (cfg : Cfg) (q : Nat) (tb : Tables) (v0 call 
 
 /-! ## clean-up -/
 
-/-- **Clean-up (legacy), the fragment that holds (C15-F1 and C15-F4 are open).**  For ALL arguments (also ill-formed
-ones), tables, values and histories: whenever the call ends by returning or by raising – except for a non-parsing
-MQTT/webhook filter next to an event trigger – every table is exactly what it was before the call. -/
-theorem C15_cleanup_legacy_partial (fl : Flags) (cfg : Cfg) (q : Nat) (tb : Tables) (v0 call : Nat) (hist : Hist)
-    (hf : Fresh q tb) (hleak : ¬ LeakyParse cfg)
-    (hexit : (Legacy.run fl cfg q tb v0 call hist).1.leavesRunning = false) :
+/-- **Clean-up (legacy), every flag value.**  For ALL arguments (also ill-formed ones), tables, values and histories:
+whenever the subscriptions are not kept (`Legacy.keeps`: still waiting; cancelled waiter only in the pre-fix shape)
+– and, only in the pre-fix shape, the exit is not a non-parsing MQTT/webhook filter next to an event trigger – every
+table is exactly what it was before the call. -/
+theorem C15_cleanup_legacy_flags (fl : Flags) (cfg : Cfg) (q : Nat) (tb : Tables) (v0 call : Nat) (hist : Hist)
+    (hf : Fresh q tb) (hleak : fl.legacyNoFinally = true → ¬ LeakyParse cfg)
+    (hexit : Legacy.keeps fl (Legacy.run fl cfg q tb v0 call hist).1 = false) :
     (Legacy.run fl cfg q tb v0 call hist).2 = tb :=
   legacy_cleanup fl cfg q tb v0 call hist hf hleak hexit
+
+/-- **Clean-up (legacy), FULL statement, the code as it is now.**  For ALL arguments (also ill-formed ones), tables,
+values and histories, on EVERY exit path – return, exception in a condition, filter that does not parse, and
+cancellation of the waiting task at every instant – all subscriptions and listeners the call created are released. -/
+theorem C15_cleanup_legacy (cfg : Cfg) (q : Nat) (tb : Tables) (v0 call : Nat) (hist : Hist)
+    (hf : Fresh q tb) (hended : (Legacy.run Flags.current cfg q tb v0 call hist).1 ≠ .waiting) :
+    (Legacy.run Flags.current cfg q tb v0 call hist).2 = tb := by
+  apply legacy_cleanup Flags.current cfg q tb v0 call hist hf (by intro h; cases h)
+  cases h : (Legacy.run Flags.current cfg q tb v0 call hist).1 with
+  | waiting => exact absurd h hended
+  | ret t r => rfl
+  | exc t k => rfl
+  | cancelled t => rfl
 
 /-- **Clean-up (new), every flag value.**  Whenever the manager is not kept (`New.keeps`: still waiting; cancelled
 waiter only in the pre-fix shape), every table is exactly what it was before the call. -/
@@ -168,15 +182,17 @@ theorem C15_cleanup_new (cfg : Cfg) (q : Nat) (tb : Tables) (v0 call : Nat) (his
   | exc t k => rfl
   | cancelled t => rfl
 
-/-- **Witness (legacy), open finding C15-F1 (#20).**  The waiter is cancelled while waiting (what `task.unique`
-does): the state subscription, the event subscription and its bus listener stay behind. -/
-theorem C15_cex_cancel_leaks_legacy :
+/-- **Regression witness (legacy), fixed finding C15-F1 (#20, a3cf272).**  The waiter is cancelled while waiting
+(what `task.unique` does): in the pre-fix shape the state subscription, the event subscription and its bus listener
+stay behind; the repaired shape leaves the tables as they were. -/
+theorem C15_cleanup_regress_legacy_cancel :
     let cfg : Cfg := { state := some { expr := fun v => some (decide (v = 5)), checkNow := true, parseOK := true },
                        time := .none, mqtt := Option.none, timeout := Option.none,
                        event := some { filt := Option.none, parseOK := true } }
     let tb : Tables := { stSubs := [], evSubs := [], evListeners := 0, mqSubs := [], mqListeners := 0, tasks := 0 }
-    Legacy.run Flags.current cfg 7 tb 0 1 [(1001, .cancel)] =
-      (.cancelled 1001, { stSubs := [7], evSubs := [7], evListeners := 1, mqSubs := [], mqListeners := 0, tasks := 0 }) := by
+    Legacy.run Flags.preFix cfg 7 tb 0 1 [(1001, .cancel)] =
+      (.cancelled 1001, { stSubs := [7], evSubs := [7], evListeners := 1, mqSubs := [], mqListeners := 0, tasks := 0 }) ∧
+    Legacy.run Flags.current cfg 7 tb 0 1 [(1001, .cancel)] = (.cancelled 1001, tb) := by
   decide
 
 /-- **Regression witness (new), fixed finding C15-F2 (#20, d8d17a4).**  Same scenario: in the pre-fix shape the state
@@ -192,16 +208,16 @@ theorem C15_cleanup_regress_new_cancel :
     New.run Flags.current cfg 7 tb 0 1 [(1001, .cancel)] = (.cancelled 1001, tb) := by
   decide
 
-/-- **Cancellation at ANY instant keeps every subscription (legacy) – the general form of C15-F1 (open).**  For all
-arguments and histories: if the call ends by cancellation (at whatever step of the wait), the tables afterwards are
-the tables with all subscriptions of the call still in place – different from the tables before as soon as any
-state / event / MQTT trigger was given. -/
-theorem C15_cancel_leaks_legacy_all (fl : Flags) (cfg : Cfg) (q : Nat) (tb : Tables) (v0 call : Nat) (hist : Hist)
-    (t : Nat) (hf : Fresh q tb) (hl : hasListen cfg = true)
+/-- **Regression (legacy), the general form of the fixed C15-F1.**  In every shape without the `finally`
+(`legacyNoFinally`), for all arguments and histories: if the call ends by cancellation (at whatever step of the
+wait), the tables afterwards are the tables with all subscriptions of the call still in place – different from the
+tables before as soon as any state / event / MQTT trigger was given. -/
+theorem C15_cleanup_regress_legacy_cancel_all (fl : Flags) (hflag : fl.legacyNoFinally = true) (cfg : Cfg) (q : Nat)
+    (tb : Tables) (v0 call : Nat) (hist : Hist) (t : Nat) (hf : Fresh q tb) (hl : hasListen cfg = true)
     (hc : (Legacy.run fl cfg q tb v0 call hist).1 = .cancelled t) :
     (Legacy.run fl cfg q tb v0 call hist).2 = Legacy.subscribed cfg q tb ∧
     (Legacy.run fl cfg q tb v0 call hist).2 ≠ tb := by
-  have h := legacy_cancel_keeps fl cfg q tb v0 call hist t hc
+  have h := legacy_cancel_keeps fl cfg q tb v0 call hist t hflag hc
   exact ⟨h, by rw [h]; exact legacy_subscribed_ne cfg q tb hf hl⟩
 
 /-- **Regression (new), the general form of the fixed C15-F2.**  In every shape that does not stop on cancellation
@@ -213,15 +229,17 @@ theorem C15_cleanup_regress_new_cancel_all (fl : Flags) (hflag : fl.cancelNoStop
       New.start fl cfg q tb v0 call = .ok (s, New.applied q s tb) :=
   new_cancel_keeps fl cfg q tb v0 call hist t hflag hf hc
 
-/-- **Witness (legacy), open finding C15-F4.**  `event_trigger="e"` together with an MQTT trigger whose filter does not
-parse: the `SyntaxError` leaves the event subscription and its bus listener behind (only the state subscription is
-removed on that path); the new subsystem validates first and leaves nothing. -/
-theorem C15_cex_parse_leaks_legacy :
+/-- **Regression witness (legacy), fixed finding C15-F4 (a3cf272).**  `event_trigger="e"` together with an MQTT trigger
+whose filter does not parse: in the pre-fix shape the `SyntaxError` leaves the event subscription and its bus
+listener behind (only the state subscription is removed on that path); the repaired shape leaves nothing, like the
+new subsystem, which validates first. -/
+theorem C15_cleanup_regress_legacy_parse :
     let cfg : Cfg := { state := Option.none, time := .none, mqtt := some { parseOK := false }, timeout := Option.none,
                        event := some { filt := Option.none, parseOK := true } }
     let tb : Tables := { stSubs := [], evSubs := [], evListeners := 0, mqSubs := [], mqListeners := 0, tasks := 0 }
-    Legacy.run Flags.current cfg 7 tb 0 1 [] =
+    Legacy.run Flags.preFix cfg 7 tb 0 1 [] =
       (.exc 1 .parse, { stSubs := [], evSubs := [7], evListeners := 1, mqSubs := [], mqListeners := 0, tasks := 0 }) ∧
+    Legacy.run Flags.current cfg 7 tb 0 1 [] = (.exc 1 .parse, tb) ∧
     New.run Flags.current cfg 7 tb 0 1 [] = (.exc 1 .parse, tb) := by
   decide
 
